@@ -5,6 +5,7 @@ import AfkakProofs.Producer.RelStep
 import AfkakProofs.Producer.ExactlyOnce
 import AfkakProofs.Producer.Acks0
 import AfkakProofs.Producer.Order
+import AfkakProofs.Producer.Progress
 /-!
 # C01 — Producer acknowledgements are truthful and fire exactly once
 Property theorems only.  Model: `Afkak/Producer.lean` (the Producer against the client interface);
@@ -113,6 +114,18 @@ theorem C01_fires_exactly_once_run (cfg : Cfg) (evs : List Ev) (hacc : Accounted
       s ∈ queued (run cfg (St.init cfg) evs).1 ∨ (firedSids (run cfg (St.init cfg) evs).2).count s = 1 :=
   run_fires_exactly_once cfg evs hacc hidle
 
+/-- "Eventually" - the liveness half, with its fairness hypothesis spelled out.  FAIRNESS (`unresolvedChain`
+    is its negation's witness): the environment keeps answering what the batch in flight waits for - the
+    client completes the produce request in flight with a valid result, the retry timer fires.  Then the
+    batch cannot stay unresolved: along any run, from any state in which a request is out or a retry is
+    pending, a chain of such answers none of which resolves the batch has at most
+    `2·(max_req_attempts − _req_attempts) + 1` members (`budget`); the next answer resolves it - and when it
+    has resolved, `C01_fires_exactly_once_run` says every send of it has fired exactly once. -/
+theorem C01_batch_resolves_within (cfg : Cfg) (pre evs : List Ev)
+    (h : unresolvedChain cfg (run cfg (St.init cfg) pre).1 evs) :
+    evs.length ≤ budget cfg (run cfg (St.init cfg) pre).1 :=
+  run_unresolved_bound cfg pre evs h
+
 /-- … and never more than once, whatever the client does: the fired ids of a whole run are distinct. -/
 theorem C01_run_fires_nodup (cfg : Cfg) (evs : List Ev) : (firedSids (run cfg (St.init cfg) evs).2).Nodup :=
   run_fires_nodup cfg evs
@@ -140,6 +153,15 @@ def exEvs : List Ev :=
    .produceDone 0 (.responses [⟨⟨0, 0⟩, 0, 42⟩]), .cancel 1]
 example : firedSids (allObs (traceOf exCfg exEvs)) = [0, 1] := by decide +kernel
 
+/-! Non-vacuity of the liveness bound: max_req_attempts = 3; the request is answered with an error code twice
+(a retry each time), the retry timers fire: a chain of 4 unresolved answers (budget: 2·(3−1)+1 = 5). -/
+def exPre : List Ev := [.metaSet 0 0 (some [0]), .send 0 0 none [some 3]]
+def exChain : List Ev :=
+  [.produceDone 0 (.responses [⟨⟨0, 0⟩, 7, -1⟩]), .timer 0, .produceDone 1 (.responses [⟨⟨0, 0⟩, 7, -1⟩]), .timer 1]
+example : budget exCfg (run exCfg (St.init exCfg) exPre).1 = 5 := by decide +kernel
+example : unresolvedChain exCfg (run exCfg (St.init exCfg) exPre).1 exChain :=
+  unresolvedChainB_sound _ _ _ (by decide +kernel)
+
 end Afkak.Props.C01
 
 /- OBLIGATIONS
@@ -154,6 +176,7 @@ C01_fires_exactly_once_run
 C01_run_fires_nodup
 C01_acks0_succeeds
 C01_payload_integrity
+C01_batch_resolves_within
 -/
 /- OPEN_STATEMENTS
 -/
